@@ -28,6 +28,7 @@ ASSUMPTIONS = [
     "vanilla and NV gate semantics from vlib.quantum; mov = swap onto a fresh target; forced measurement outcomes identical on both sides",
     "virtual qubit 0 (the electron) is allocated whenever a two-carbon gate executes (the unallocated-electron case is C09's open finding)",
     "Q registers are written by `set` only while the open finding q-reg-from-load is listed",
+    "every executed NV controlled rotation must have the electron (virtual id 0) as control and a carbon as target",
 ]
 SHARDS = {"quick": 4, "thorough": 16}
 KF_LOAD = "q-reg-from-load"
@@ -223,6 +224,9 @@ def compare(case, subs_vanilla, debug: bool) -> Dict[str, Any]:
             va, vb = exA.sv.ordered(la), exB.sv.ordered(lb)
             if not qm.vec_equal_up_to_phase(va, vb, 1e-7):
                 raise Failure(f"state:{'debug' if debug else 'nodebug'}", case, f"subroutine {k}: final quantum states differ (overlap {abs(np.vdot(va, vb)):.4f})")
+        bad = [(c, t) for c, t in exB.crot_controls if c != 0 or t == 0]
+        if bad:
+            raise Failure("crot-control-not-electron", case, f"subroutine {k}: the transpiled program executed controlled rotations with (control, target) virtual ids {bad[:3]}; NV controlled rotations are electron-controlled (virtual id 0)")
         if exA.outcome_log != exB.outcome_log:
             raise Failure("outcomes", case, f"measurement outcomes differ: {exA.outcome_log} vs {exB.outcome_log}")
     return info
